@@ -81,6 +81,32 @@ def regenerate_src():
             with core.Lock("lake"):
                 with open(po, "w") as f:
                     f.write(otext)
+        from . import srctecmp
+        pt = os.path.join(core.LEAN, "AsamCmp", "GeneratedSrcTecmp.lean")
+        try:
+            ttext, tnote, _x = srctecmp.generate(T)
+            note += "; " + tnote
+        except Exception as e:  # noqa: any failure of the TECMP translator on the current source => stub file => broken obligations
+            ttext = "/- GENERATED: the TECMP translator could not run: %s -/\nimport AsamCmp.GeneratedSrcObj\nimport AsamCmp.Src.ObjTecmp\nnamespace AsamCmp.SrcGen\nend AsamCmp.SrcGen\n" % str(e).replace("-/", "- /")[:400]
+            note += "; GeneratedSrcTecmp.lean: TECMP translator failed (%s)" % str(e)[:120]
+        oldt = open(pt).read() if os.path.exists(pt) else None
+        if oldt != ttext:
+            with core.Lock("lake"):
+                with open(pt, "w") as f:
+                    f.write(ttext)
+        from . import srcsig
+        try:
+            stext, nsig = srcsig.generate(T)
+            note += "; GeneratedSrcSig.lean: %d declared signatures / member types" % nsig
+        except Exception as e:  # noqa
+            stext = "/- GENERATED: the signature table could not be produced: %s -/\nnamespace AsamCmp.SrcGen\nend AsamCmp.SrcGen\n" % str(e).replace("-/", "- /")[:400]
+            note += "; GeneratedSrcSig.lean: failed (%s)" % str(e)[:120]
+        ps = os.path.join(core.LEAN, "AsamCmp", "GeneratedSrcSig.lean")
+        olds = open(ps).read() if os.path.exists(ps) else None
+        if olds != stext:
+            with core.Lock("lake"):
+                with open(ps, "w") as f:
+                    f.write(stext)
         from . import srcfields
         try:
             ftext, nprog, nent, notes = srcfields.generate(T)
